@@ -310,6 +310,7 @@ fn scenario(lk: LoopKind, kind: BodyKind, input: Vec<i64>, max: usize, limit: i6
         nontrivial: !input.is_empty() && max >= 2,
         unbounded: false,
         loop_body: false,
+        sometimes: vec![],
     }
 }
 
